@@ -95,6 +95,5 @@ Section Obs.
     let '(w0, ps0) := init_world toyA fx dk in obs_steps md w0 (vapply [] ps0) h.
 
   Definition toy_conformant (dk : amap (list stmt)) (h : list (action toyA)) : bool := conformant toyA fx dk h.
-  Definition toy_conformant_full (dk : amap (list stmt)) (h : list (action toyA)) : bool := conformant_full toyA fx dk h.
   Definition toy_classes (dk : amap (list stmt)) (h : list (action toyA)) : list N := classes toyA fx dk h.
 End Obs.
